@@ -370,6 +370,11 @@ func canonDepth(v ssa.Value, d int) string {
 	if d > 12 {
 		return v.Name()
 	}
+	if canonSubst != nil {
+		if s, ok := canonSubst[v]; ok {
+			return s
+		}
+	}
 	switch x := v.(type) {
 	case *ssa.Const:
 		if x.Value == nil {
@@ -420,6 +425,10 @@ func canonDepth(v ssa.Value, d int) string {
 	}
 	return v.Name()
 }
+
+// canonSubst: values that are to be spelled as given (decision-table composition: a helper's parameters as the
+// call's arguments, a helper call as what the helper returns on one of its paths).
+var canonSubst map[ssa.Value]string
 
 // canonPhiHook lets a path-sensitive client (decision-table extraction) resolve phis by the path being walked.
 var canonPhiHook func(*ssa.Phi) ssa.Value
